@@ -452,6 +452,9 @@ func (n *nodeSim) judgeReport(b *bpv7.Bundle, where string) {
 			}
 		}
 	}
+	if tr != nil && n.idReusedAfterRestart(tr) {
+		return // two bundles share this ID (recorded finding under C05): the report cannot be attributed
+	}
 	if tr == nil {
 		// a report about a node-generated bundle or about nothing we know
 		n.res.Violate("C15", "truthful", "report-about-unknown-bundle", "report %s (%s) refers to %s, which is no bundle this node handled", id, where, sr.RefBundle.String())
